@@ -351,6 +351,8 @@ def run_mhn_stream(ctx, cuqi, thorough, H):
                     if not (x > 0) and scheme != "gamma-noguard":
                         ctx.fail(key, desc, "a draw inside the support (x > 0)", x, "a draw outside the support of the density is returned"); nf += 1
                         break
+            if nf == 0 and err is not None and not m_raises and entry in ("private", "sample") and "StreamExhausted" not in err:
+                ctx.fail(key, desc, "a draw", err, "sampling raises for valid parameters"); nf += 1
             if nf == 0 and entry != "sample" and cs["probe"][0] is not None:
                 aa, bb, cc = pars
                 viol = identity_oracle(H, D, entry, pars, m, _recorded_call(rng, cs), lambda x: (aa - 1) * math.log(x) - bb * x * x + cc * x)
